@@ -360,6 +360,26 @@ func fileHelpers(k *sink) {
 			})
 		}
 	}
+	// a destination that can be created but not written: every write to /dev/full fails with ENOSPC (the fault may
+	// surface on the first byte or, with a buffering helper, only at the final flush - a short and a long document)
+	if _, err := os.Stat("/dev/full"); err == nil {
+		big := astisub.NewSubtitles()
+		for i := 0; i < 300; i++ {
+			big.Items = append(big.Items, &astisub.Item{StartAt: time.Duration(i) * time.Second, EndAt: time.Duration(i+1) * time.Second,
+				Lines: []astisub.Line{{Items: []astisub.LineItem{{Text: "a line of text that makes the document long"}}}}})
+		}
+		for _, ext := range []string{".srt", ".vtt", ".ssa", ".stl", ".ttml"} {
+			ext := ext
+			for li, list := range []*astisub.Subtitles{s, big} {
+				name := []string{"short", "long"}[li]
+				p := filepath.Join(dir, "full-"+name+ext)
+				if os.Symlink("/dev/full", p) != nil {
+					continue
+				}
+				put("write-device-full-"+name+ext, "err", func() error { return list.Write(p) })
+			}
+		}
+	}
 	put("write-ok.srt", "ok", func() error { return s.Write(filepath.Join(dir, "ok.srt")) })
 	put("open-ok.srt", "ok", func() error { _, e := astisub.OpenFile(filepath.Join(dir, "ok.srt")); return e })
 }
